@@ -125,7 +125,7 @@ UNIT = dict(
                'the entry of a drawn ticket is touched only by the partner of that ticket, a node private to the thread is not touched',
                'linearizability of the concurrent composition is the assumed lemma (DESIGN.md C04)'],
   consts=[
-    dict(name='XV_STEP', file=F, regex=r'static constexpr unsigned step_size = ([^;]+);'),
+    dict(name='XV_STEP', file=F, regex=r'static constexpr unsigned step_size =\s*([^;]+);'),
     dict(name='XV_MAXIDX', file=F, regex=r'static constexpr unsigned max_idx = ([^;]+);'),
     # static_asserts that directly follow the two constants (none on the original tree)
     dict(name='XV_STATIC_ASSERTS', file=F, regex=r'static constexpr unsigned max_idx = [^;]+;\s*((?:static_assert\s*\((?:[^;"]|"[^"]*")*\)\s*;\s*)*)',
